@@ -97,6 +97,8 @@ def parse_adjustment(text):
         S["defect"] = int(pe.get("defect"))
         S["sum_of_squares"] = float(pe.get("sum-of-squares"))
         S["connected"] = pe.find("connected-network") is not None
+        it = pe.find("linearization-iterations")
+        S["iterations"] = int(it.text) if it is not None else 0
         sd = summ.find("standard-deviation")
         S["apriori"] = sd.getf("apriori")
         S["aposteriori"] = sd.getf("aposteriori")
